@@ -47,10 +47,14 @@ def stream_text(s):
 
 
 VIEWS = {"%w0": ("%b0", 0), "%w1": ("%b0", 2), "%w2": ("%b1", 1)}
+#: views of views (same two elements as their parent view)
+NESTED = {"%y1": "%w1", "%y2": "%w2"}
 TS1 = 'memref<2xi32, "L1">'
 
 
 def buf_type(b):
+    if b in NESTED:
+        return buf_type(NESTED[b])
     if b in VIEWS:
         return f'memref<2xi32, strided<[1], offset: {VIEWS[b][1]}>, "L1">'
     if b == "%s0":
@@ -111,7 +115,7 @@ class BufGen:
         if p.get("streams") and k in ("copy", "gen") and r.random() < 0.4:
             kind = r.choice(list(STREAM_KINDS))
             return {"k": "stream", "kind": kind, "tag": self.tag}
-        small = list(VIEWS) + ["%s0"]
+        small = list(VIEWS) + ["%s0"] + (list(NESTED) if p.get("nested_views") else [])
         if p.get("views") and k in ("copy", "gen") and r.random() < 0.5:
             s, d = r.sample(small, 2)
             if k == "copy":
@@ -148,6 +152,8 @@ class BufGen:
 
     def program(self):
         ast = {"body": self.stmts(self.p["top_stmts"], 0, [], False), "views": bool(self.p.get("views")), "streams": bool(self.p.get("streams"))}
+        if self.p.get("views") and self.p.get("nested_views"):
+            ast["nested_views"] = True
         if self.p.get("select"):
             ast["select"] = True  # %sel0 = one of two local buffers, decided at run time
         if self.p.get("n_allocs", N_ALLOCS) != N_ALLOCS:
@@ -182,6 +188,7 @@ def buffers_of(st):
     for key in ("body", "then", "else"):
         for x in st.get(key, []):
             out |= buffers_of(x)
+    out = {NESTED.get(b, b) for b in out}
     return {VIEWS[b][0] if b in VIEWS else b for b in out}
 
 
@@ -213,6 +220,12 @@ def emit(ast) -> str:
     def e(ind, s):
         L.append("  " * ind + s)
 
+    def nested_of(ind, w):
+        if ast.get("nested_views"):
+            for y, parent in NESTED.items():
+                if parent == w:
+                    e(ind, f"{y} = memref.subview {w}[0][2][1] : {buf_type(w)} to {buf_type(y)}")
+
     def stmts(ind, body):
         for s in body:
             k = s["k"]
@@ -236,6 +249,7 @@ def emit(ast) -> str:
                     for w, (b, off) in VIEWS.items():
                         if b == s["buf"]:
                             e(ind, f"{w} = memref.subview {b}[{off}][2][1] : {T1} to {buf_type(w)}")
+                            nested_of(ind, w)
             elif k == "for":
                 e(ind, f'scf.for {s["iv"]} = {s["lb"]} to {s["ub"]} step {s["step"]} {{')
                 stmts(ind + 1, s["body"])
@@ -268,6 +282,7 @@ def emit(ast) -> str:
         for w, (b, off) in VIEWS.items():
             if b not in late:
                 e(2, f"{w} = memref.subview {b}[{off}][2][1] : {T1} to {buf_type(w)}")
+                nested_of(2, w)
         if "%s0" not in late:
             e(2, f"%s0 = memref.alloc() {{vsite = 7 : i64}} : {TS1}")
     stmts(2, ast["body"])
